@@ -76,6 +76,16 @@ type ChainSpec struct {
 	CheckBatches bool
 	// Payload is the signature payload provider the chain's nodes are configured with (nil = the default one).
 	Payload types.SignaturePayloadProvider
+	// Roots, if set, is the reference execution the app-hash / state-agrees clauses compare with (a world whose
+	// execution layer is not the Exec double, see RootModel); nil = the hash chain of the Exec double.
+	Roots *RootModel
+}
+
+// RootModel is a reference execution of a chain from genesis: Genesis returns the root before the first block, Next
+// the root after executing one more block on top of everything executed so far (blocks are fed in height order, once).
+type RootModel struct {
+	Genesis func() ([]byte, error)
+	Next    func(b Block) ([]byte, error)
 }
 
 // CheckChain verifies the C01 clauses on a committed chain (recomputed from the store only).
@@ -86,6 +96,12 @@ func CheckChain(st store.Store, spec ChainSpec) (height uint64, blocks []Block, 
 		return
 	}
 	root := GenesisRoot(spec.ChainID)
+	if spec.Roots != nil {
+		var err error
+		if root, err = spec.Roots.Genesis(); err != nil {
+			return height, blocks, failf("app-hash", "reference execution: genesis fails: %v", err)
+		}
+	}
 	bi := 0
 	for i, b := range blocks {
 		h := spec.Initial + uint64(i)
@@ -156,7 +172,14 @@ func CheckChain(st store.Store, spec ChainSpec) (height uint64, blocks []Block, 
 				return height, blocks, failf("batch-contents", "block %d contains transactions %q that are not a batch (in order) the sequencing layer handed out after the batches of earlier blocks", h, txs)
 			}
 		}
-		root = NextRoot(root, txsOf(b.D))
+		if spec.Roots != nil {
+			var err error
+			if root, err = spec.Roots.Next(b); err != nil {
+				return height, blocks, failf("app-hash", "reference execution of the committed chain from genesis fails at block %d: %v", h, err)
+			}
+		} else {
+			root = NextRoot(root, txsOf(b.D))
+		}
 	}
 	// recorded state agrees
 	s, err := st.GetState(context.Background())
